@@ -102,8 +102,12 @@ Proof.
 Qed.
 Print Assumptions C17_for_every_table.
 
-(** LOCALITY FROM THE VARIANT TABLE ALONE.  For every variant table that passes [variant_row_ok] and EVERY effect
-    table — methods may write the fields the variant table lists for them (a memo, a counter) —: in every
+(** LOCALITY FROM THE VARIANT TABLE (no hypothesis on the effect table).  For every variant table that passes
+    [variant_row_ok], every effect table, and a catalogue whose cells are separated ([cat_separate]: no prototype keeps
+    a field somebody writes in the cell of a field nobody writes — a hypothesis about the CONSTRUCTORS, which no table
+    establishes; trivially true for today's table, which has no written field) — for methods that write only the
+    fields the variant table lists for them ([vf_writers], part of the trusted extraction; the semantics confines
+    writes to these fields): in every
     reachable configuration every field NOBODY writes, of every instance, holds exactly its prototype's
     catalogue value overlaid with the instance's own overrides.  So overrides are local, independent of what
     else was created or executed, and the prototype keeps these fields: a variant never aliases, and never
@@ -159,7 +163,8 @@ Proof. intros s0 cat os s insts. exact (run_ops_spec generated_table effects_rea
 Print Assumptions C17_sequential_runs_meet_spec.
 
 (** finding C17-F1 (repaired by fix: commit 13721c3), as it was at the pinned revision: [f1_row] is the row the
-    translator then extracted for jwtAuthenticator (Execute reaches the stores of MetadataEndpoint.init).  For the
+    translator then extracted for jwtAuthenticator (Execute reaches the stores of MetadataEndpoint.init), reduced by
+    hand to the methods Execute / WithConfig and one cell.  For the
     table consisting of that row the check [forallb row_ok] fails, and in the model two concurrent executions of
     the prototype race and the shared prototype changes.  (Documentation of the repaired defect; no statement about
     today's tree.) *)
@@ -171,8 +176,8 @@ Theorem C17_F1_pinned_refuted :
 Proof. exact F1_pinned_refuted. Qed.
 Print Assumptions C17_F1_pinned_refuted.
 
-(** what the variant check rejects, on two seeded changes (rows as extracted from the changed trees; no statement
-    about today's tree).  corpus/C17/mutations/M2 — WithConfig re-uses the prototype's [scopes] backing array:
+(** what the variant check rejects, on two seeded changes (rows as extracted from the changed trees, REDUCED BY HAND
+    to two fields with the indices renumbered — the real row has [VMixAlias 5] —; no statement about today's tree).  corpus/C17/mutations/M2 — WithConfig re-uses the prototype's [scopes] backing array:
     [variant_row_ok] fails and in the model creating a variant with other scopes CHANGES THE PROTOTYPE. *)
 Theorem C17_variant_check_refutes_M2 :
   variant_row_ok m2_vrow = false /\ vcatalogue_ok [m2_vrow] [1%Z; 10%Z] [two_proto] /\
@@ -205,6 +210,24 @@ Theorem C17_nonvacuous :
    immutable_at [loc_vrow] two_proto 0 /\ writable_at [loc_vrow] two_proto 1).
 Proof. split; [exact v_nonvacuous|exact locality_nonvacuous]. Qed.
 Print Assumptions C17_nonvacuous.
+
+(** the hypotheses of the five main theorems have a witness for TODAY's generated tables: a catalogue with one prototype
+    of the first mechanism type (one cell per field of its row) satisfies [vcatalogue_ok generated_variants] and
+    [has_row generated_table], and [init] is reachable.  (Runs that create variants are exhibited on small tables in
+    [C17_nonvacuous]; for the mechanism types whose WithConfig only returns the receiver or an error every field has
+    [vf_srcs = []], so [VsVariant] can never fire for them — faithfully: no variant of them is ever constructed.) *)
+Theorem C17_hypotheses_satisfiable_today :
+  exists s0 cat, cat <> [] /\ vcatalogue_ok generated_variants s0 cat /                 (forall p, In p cat -> has_row generated_table p) /                 vsteps generated_table generated_variants (init s0 cat) (init s0 cat).
+Proof.
+  remember generated_table as et eqn:Het. remember generated_variants as vt eqn:Hvt.
+  assert (Hl : List.length et >= 10) by (subst; apply table_covers_mechanisms).
+  assert (Ha : tables_aligned et vt = true) by (subst; exact variants_aligned).
+  destruct et as [|er erest]; [simpl in Hl; lia|]. destruct vt as [|vr vrest]; [simpl in Ha; discriminate|].
+  exists (repeat 0%Z (List.length (v_fields vr))), [proto_of vr].
+  destruct (catalogue_exists er erest vr vrest) as [A B].
+  split; [discriminate|]. split; [exact A|]. split; [exact B|apply vsteps_refl].
+Qed.
+Print Assumptions C17_hypotheses_satisfiable_today.
 
 (** today's tables are not empty-handed: rows for at least ten mechanism types, each with an Execute and a
     WithConfig method; the variant table speaks about the same types in the same order, and at least ten of its
